@@ -34,3 +34,9 @@ pub assume_specification<T, F> [std::option::Option::<T>::is_none_or] (o: std::o
     where F: FnOnce(T) -> bool + std::marker::Destruct
     requires o is Some ==> f.requires((o->0,)),
     ensures o is None ==> r, o is Some ==> f.ensures((o->0,), r);
+
+pub assume_specification<T, P> [std::option::Option::<T>::filter] (o: std::option::Option<T>, p: P) -> (r: std::option::Option<T>)
+    where P: FnOnce(&T) -> bool + std::marker::Destruct, T: std::marker::Destruct
+    requires o is Some ==> p.requires((&o->0,)),
+    ensures o is None ==> r is None, r is Some ==> r == o, o is Some ==> (r is Some <==> p.ensures((&o->0,), true));
+pub assume_specification [std::path::Path::to_path_buf] (p: &Path) -> (r: PathBuf);
